@@ -206,6 +206,117 @@ def validate_source_map(rep):
     rep.absorb(ex)
 
 
+KF_NESTED_FILE = 'C20/nested-compiler/source-file-not-inherited'
+FILE_PROGRAMS = [
+    # (program run as /d/main.ts, frames expected to name /d/main.ts)
+    ('let n: any = null;\nconst f = () => n.x;\nf();', 2),
+    ('let n: any = null;\nclass K { constructor() { n.x; } }\nnew K();', 2),
+    ('let n: any = null;\nclass B { }\nclass K extends B { v = n.x; }\nnew K();', 2),
+    ('let n: any = null;\nfunction g() { return n.x; }\ng();', 2),
+]
+
+
+def check_nested_source_file(rep, cross):
+    """every compiler function that creates a nested Compiler (function bodies, arrow bodies, class constructors, default constructors)
+    hands its source file to the nested builder BEFORE it uses the nested compiler - the chunk of the nested function names the file
+    that stack traces print.  The set of such functions is taken from the MIR (callers of Compiler::new among Compiler's methods)."""
+    import re
+    from emir.symex import Abort
+    ex0 = common.executor(unwind=2)
+    m = ex0.mir
+    names = {}
+    for (ty, trait, meth), fns in ex0._fnkeys.items():
+        for n in fns:
+            names[n] = (ty, meth)
+    callers = []
+    for name, (s_, e_) in m.fn_index.items():
+        if names.get(name, (None,))[0] != 'Compiler':
+            continue
+        if any(re.search(r'= (compiler::)?Compiler::new\(\)', l) for l in m.lines[s_:e_]):
+            callers.append(name)
+    entry = {'compile_program', 'compile_program_with_source', 'compile_program_for_eval', 'with_source_file', 'compile_function_body_direct'}
+    callers = [c for c in callers if names[c][1] not in entry and m.get(c).args and 'Compiler' in m.get(c).args[0][1]]
+    rep.extra['functions_creating_nested_compilers'] = sorted(names[c][1] for c in callers)
+    if not callers:
+        rep.inconc('no Compiler method creating a nested Compiler found in the MIR dump')
+        return
+    bad = []
+    for fn in sorted(callers):
+        meth = names[fn][1]
+        ex = common.executor(unwind=2)
+        ex.auto_havoc = True
+        C = {n: i for i, n in enumerate(ex.src.structs['Compiler'])}
+        if 'source_file' not in C or 'builder' not in C:
+            raise driver.Inconclusive('Compiler.source_file / builder not found (renamed?)')
+
+        def h_new(e, s, c):
+            s.extra['nested_addr'] = c.dest[0] if c.dest else None
+            s.event('nested_created')
+            return e.ret(s, c, Agg('struct', 'Compiler', {}, lazy=True, nm='$nested'))
+
+        def h_setfile(e, s, c):
+            r = c.args[0]
+            if isinstance(r, Ref) and r.addr == s.extra.get('nested_addr'):
+                s.event('nested_file_set')
+            return e.ret(s, c, UNIT)
+
+        def h_any(e, s, c):
+            na = s.extra.get('nested_addr')
+            if na is not None and any(isinstance(a_, Ref) and a_.addr == na for a_ in c.args):
+                if c.norm in ('BytecodeBuilder::set_source_file',):
+                    return None
+                raise Abort('cut', 'first use of the nested compiler: %s' % c.norm)
+            return None
+        ex.overrides.insert(0, (re.compile(r'^Compiler::new$'), h_new))
+        ex.overrides.insert(1, (re.compile(r'^BytecodeBuilder::set_source_file$'), h_setfile))
+        ex.overrides.insert(2, (re.compile(r'.'), h_any))
+        f = ex.mir.get(fn)
+        st = State()
+        has_file = z3.BitVec('outer_has_source_file', 64)
+        st.assume(z3.ULT(has_file, 2))
+        comp = st.alloc(Agg('struct', 'Compiler', {C['source_file']: EnumV('Option<String>', has_file, {1: {0: Opaque('String', z3.Int('$outer_file'))}})}, lazy=True))
+        args = [Ref(comp)] + [ex.fresh(st, t, '$a%d' % i) for i, (a_, t) in enumerate(f.args) if i > 0]
+        ex.call_function(st, fn, args)
+        try:
+            ends = ex.run(st, max_paths=3000)
+        except Exception as err:
+            rep.inconc('%s: %s' % (meth, str(err)[:120]))
+            continue
+        n_cut = 0
+        this_bad = False
+        for e in ends:
+            if e.status != 'cut':
+                continue
+            n_cut += 1
+            was_set = any(x[0] == 'nested_file_set' for x in e.st.events)
+            g = z3.Implies(has_file == 1, z3.BoolVal(was_set))
+            r, mm = ex.check_sat_pc(e.st.pc, [z3.Not(g)])
+            if r == 'sat':
+                this_bad = True
+        what = 'Compiler::%s hands its source file to the nested compiler before using it' % meth
+        rep.obligation(what, 'sat' if this_bad else 'unsat', '%d paths up to the first use of the nested compiler' % n_cut, 0.0)
+        if n_cut == 0:
+            rep.inconc('%s: no path reaches a use of the nested compiler (vacuity)' % meth)
+        if this_bad:
+            bad.append(meth)
+        rep.absorb(ex)
+    outs = driver.replay([{'cmd': 'eval', 'src': p_, 'path': '/d/main.ts'} for p_, _ in FILE_PROGRAMS])
+    wrong = []
+    for (p_, nfr), o in zip(FILE_PROGRAMS, outs):
+        rep.validated += 1
+        err = o.get('error', '')
+        frames = [l for l in err.splitlines() if l.strip().startswith('at ')]
+        other = [l.strip() for l in frames if '/d/main.ts' not in l]
+        if other or len(frames) < nfr:
+            wrong.append((p_, other or frames))
+    if (bad or wrong) and not rep.seen(KF_NESTED_FILE):
+        p = rep.write_replay('nested-file', {'functions_without_propagation': bad, 'programs_with_wrong_file': wrong})
+        rep.violation(KF_NESTED_FILE, 'the source file is not handed to the nested compiler in %r%s' % (
+            bad, '; e.g. %r reports frames %r (run as /d/main.ts)' % (wrong[0][0], wrong[0][1]) if wrong else ' (symbolic counterexample)'), p)
+    rep.vacuity.append('nested compilers: %d creating functions' % len(callers))
+    rep.sample({'kernel': 'nested compilers inherit the source file', 'functions': sorted(names[c][1] for c in callers)})
+
+
 def run(rep):
     N = BOUNDS[rep.tier]
     rep.bounds = dict(builder_operations_max=N, spans='symbolic (start,end: u64; line,column: u32)', lookups='every instruction index')
@@ -217,6 +328,7 @@ def run(rep):
     check_source_map(rep, cross)
     from . import c20trace, lexk
     c20trace.check(rep, cross)
+    check_nested_source_file(rep, cross)
     lexk.check(rep, cross, 'C20')
     rep.cross = driver.cross_check(cross, 300, 'ALL', rep.tier, rep.seed)
     rep.extra['cross_checked_obligations'] = len(cross)
